@@ -234,11 +234,18 @@ void harness(void) {
 #if defined(OP1)
         /* operations are fixed per instance (a symbolic choice among 8 operations per step did not finish symex); their
          * arguments and payloads stay symbolic */
+#ifdef OP3
+        const uint8_t op = (step == 0) ? OP1 : ((step == 1) ? OP2 : OP3);
+#else
         const uint8_t op = (step == 0) ? OP1 : OP2;
+#endif
 #else
         SYM_U8(op);
 #endif
-#ifdef PLEN_FIXED
+#if defined(PLEN1)
+        /* per-step concrete payload lengths: PLEN1, PLEN2 (, PLEN3) -- e.g. 0, 0, 5: two payload-less chunks in one list, then a non-empty one */
+        const uint32_t plen = (step == 0) ? PLEN1 : ((step == 1) ? PLEN2 : PLEN3);
+#elif defined(PLEN_FIXED)
         const uint32_t plen = PLEN_FIXED;    /* concrete sizes keep every file offset concrete (field-sensitive file image) */
 #else
         SYM_U32(plen);
